@@ -1,24 +1,35 @@
-"""C13 - THROW-AWAY development wrapper around c13_heads (the coordinator replaces this file)."""
+"""C13 - policy heads: sampling, log-probability and entropy describe one distribution; greedy / exploration discipline."""
+from .. import sweep, tlc
 from . import c13_heads
 
 LEVEL = "model_checking"
 MANIFEST = dict(
     category="model_checking",
-    text="development wrapper",
-    note="",
-    technique="TLA+ spec + TLC; replay of TLC-generated vectors",
+    text="Heads.tla (with Forms.tla: exact linear forms over named constants) specifies softmax / Gaussian / tanh-Gaussian / deterministic heads and the greedy / epsilon-greedy selectors on a lattice where every value is an exact form; TLC checks the one-distribution laws (normalisation, log-prob = log of entry, entropy closed form, standardised-noise invariance, greedy is a maximiser, epsilon 0 / 1) and totality over un-batched and batched shapes; every lattice vector is replayed into the real heads (eager and jitted). The loop clause is decided on recorded runs of the value-based routines with epsilon interposed to 0, 1 and the routine's own schedule: LoopTrace.tla checks GreedyIsMaximiser, GreedyOnCurrentEstimate, ChosenActionPassed, EpsilonZeroAlwaysGreedy, EpsilonOneNeverGreedy, PolicyBeforeWarmup.",
+    note="values off the lattice (arbitrary logits, general mean/sigma) are not decided; transcendental forms compared with counted rounding bounds; trusted: stub networks, form evaluation in float64, recording wrappers, TLC",
+    technique="TLA+ spec + TLC on an exact-form lattice, replayed into the real heads; trace validation of recorded training runs for the exploration discipline",
 )
 
 
 def run(rep):
     c13_heads.run_heads(rep)
+    for m in ("LoopClauses", "LoopTrace"):
+        tlc.sany(m)
+    traces, out = sweep.report_property(rep, "C13")
+    vb = [t for t in traces if any(e["ev"] == "policy" and "chosen" in e for e in t["events"])]
+    rep.extra["loop_clause"] = {"runs_with_greedy_probe": len(vb), "greedy_evaluations": sum(1 for t in vb for e in t["events"] if e["ev"] == "policy")}
+    if not vb:
+        raise tlc.MachineryError("no recorded run exercises the greedy probe (vacuous loop clause)")
 
 
 def replay(path, rep):
     import json
 
     d = json.load(open(path))["replay"]
-    rc = c13_heads.replay_heads(d, rep)
+    if isinstance(d, dict) and d.get("kind") == "sweep":
+        rc = sweep.replay_one(d, "C13")
+    else:
+        rc = c13_heads.replay_heads(d, rep)
     if rc:
         print("VIOLATION property=C13 replay=" + path)
     return rc
